@@ -1,7 +1,7 @@
 (* Properties/C06.v — join: exact row combinations, collision-free names, all columns reachable. *)
 From Coq Require Import List String NArith ZArith Bool.
 From PDT Require Import Base.StableSort Model.Dtype Model.Value Model.Ops Model.Expr Model.RefSem
-     Model.SqlCompile Proofs.JoinUnionLemmas Proofs.SqlCompileLemmas.
+     Model.SqlCompile Model.PlCompile Proofs.JoinUnionLemmas Proofs.SqlCompileLemmas Proofs.PlCompileLemmas.
 From PDTGen Require Import Catalogue.
 Import ListNotations.
 Open Scope list_scope.
@@ -52,6 +52,19 @@ Theorem sql_inner_join_is_the_reference : forall d l r on c,
 Proof. intros d l r on c C F. apply (sql_compile_correct_proof d (Join l r on JInner) c C F). Qed.
 Print Assumptions sql_inner_join_is_the_reference.
 
+(* Polars, inner and cross joins: the transcription of the Join branch of the Polars compile_ast - the three
+   passes of rename_overwritten_cols that resolve name collisions among hidden columns (right columns named
+   like a visible left column; left columns named like a visible right column; right columns named like ANY
+   left column), name_in_df.update, the pairs of rows satisfying the condition with the columns of both
+   frames side by side - exports the reference table for all data.  The proof shows that after the passes no
+   column name occurs in both frames (user names: pass 3; suffixed names: fresh), so every column identity of
+   either operand still reads its own column in the joined frame. *)
+Theorem polars_inner_join_is_the_reference : forall d l r on st,
+  pl_compile d (Join l r on JInner) = Some st -> pflat_ok d (Join l r on JInner) = true ->
+  pl_export st = export_ref (do_join (sem_ref d l) (sem_ref d r) on JInner).
+Proof. intros d l r on st C F. apply (pl_compile_correct_proof d (Join l r on JInner) st C F). Qed.
+Print Assumptions polars_inner_join_is_the_reference.
+
 (* non-vacuity: computed columns and filters on both sides, an inequality in the condition, a summarize after *)
 Example inner_join_example :
   let d := [("l"%string, [[VInt 1; VInt 10]; [VInt 2; VInt 20]; [VNull; VInt 30]; [VInt 2; VInt 40]]);
@@ -63,7 +76,7 @@ Example inner_join_example :
                   [("w"%string, 6%N, EFn Op_mul [ECol 5%N; ELit (VInt 2)] false [] [])] in
   let j := Join l r (EFn Op_bool_and [EFn Op_equal [ECol 1%N; ECol 4%N] false [] [];
                                       EFn Op_less_than [ECol 6%N; ECol 3%N] false [] []] false [] []) JInner in
-  flat_ok j = true
+  flat_ok j = true /\ pflat_ok d j = true
   /\ flat_ok (Summarize (GroupBy j [1%N] false) [("n"%string, 9%N, EFn Op_count_star [] false [] [])]) = true
   /\ f_rows (export_ref (sem_ref d j)) = [[VInt 2; VInt 20; VInt 21; VInt 2; VInt 5; VInt 10]; [VInt 2; VInt 40; VInt 41; VInt 2; VInt 5; VInt 10]]
   /\ option_map (fun c => f_rows (sem_query d c)) (compile j) = Some (f_rows (export_ref (sem_ref d j))).
